@@ -306,7 +306,7 @@ class C04(core.Check):
     def cases(self, ctx):
         r = core.rng(self.seed, "C04", "gen")
         out = []
-        npairs = 150 if self.quick else 1500
+        npairs = 150 if self.quick else 5000
         for i in range(npairs):
             comp = r.choice([0, 2])
             n = r.choice([1, 3, 10, 40, 150])
@@ -351,7 +351,7 @@ class C04(core.Check):
                 A = bytes(d_)
             self._add(out, r, ctx, "p%d" % i, akind, A, B)
         # library-written pairs with automatic chunking (content-defined boundaries resynchronise after an edit)
-        nlib = 3 if self.quick else 30
+        nlib = 3 if self.quick else 60
         for i in range(nlib):
             D = gen.content(r.choice(["license", "text", "mixed"]), r.choice([200000, 600000]), r.random())
             pos = r.randrange(len(D))
@@ -390,7 +390,7 @@ class C04(core.Check):
                 T = B
             bkind = r.choice(["zckverifBOUNDARY", "00000000000abcdef", "a+b(c).d?e", "x"])
             self.nreal = getattr(self, "nreal", 0)
-            if self.nreal < (60 if self.quick else 600) and (len(out) % (3 if self.quick else 4) == 0):
+            if self.nreal < (60 if self.quick else 1500) and (len(out) % (3 if self.quick else 4) == 0):
                 self.nreal += 1
                 out.append({"real": True, "name": name, "akind": akind, "tkind": tkind, "A": core.b64(A) if A else None, "B": core.b64(B),
                             "T": core.b64(T) if T is not None else None, "maxr": r.choice([1, 2, 3, 7, 100, 256]), "boundary": r.choice(["3d6b6a416f9b5", "a+b(c).d", "x'y_z"]),
